@@ -32,7 +32,7 @@ func poolHash(name string) *data.ContentHash {
 	switch name {
 	case "i1", "i2", "i3", "i4", "i5", "i6":
 		k := name[1] - '0'
-		return &data.ContentHash{Graph: &data.ContentHash_Graph{Hash: fill(16*k, 32), DigestAlgorithm: 1, CanonicalizationAlgorithm: 1, MerkleTree: uint32(k % 2)}}
+		return &data.ContentHash{Graph: &data.ContentHash_Graph{Hash: fill(16*k, 32), DigestAlgorithm: 1 + uint32(k%2), CanonicalizationAlgorithm: 1 + uint32(k%3), MerkleTree: uint32(k % 2)}}
 	case "w1":
 		return &data.ContentHash{Raw: &data.ContentHash_Raw{Hash: fill(0xa0, 32), DigestAlgorithm: 1, FileExtension: "txt"}}
 	case "w2":
@@ -314,14 +314,15 @@ func (r *runner) dataQueries(ob M, budget int, ds *DataState) {
 				}
 			}
 			if err != nil || a == nil {
-				singles = append(singles, M{"q": by, "iri": n, "err": true, "riri": "", "t": 0})
+				singles = append(singles, M{"q": by, "iri": n, "err": true, "riri": "", "t": 0, "same_hash": false})
 				continue
 			}
 			t := -999
 			if tm, e := gogotypes.TimestampFromProto(a.Timestamp); e == nil {
 				t, _ = TimeTick(tm)
 			}
-			singles = append(singles, M{"q": by, "iri": n, "err": false, "riri": abstractIRI(a.Iri), "t": t})
+			singles = append(singles, M{"q": by, "iri": n, "err": false, "riri": abstractIRI(a.Iri), "t": t,
+				"same_hash": a.ContentHash != nil && a.ContentHash.String() == poolHash(n).String()})
 		}
 	}
 	for _, x := range ds.Resolvers {
